@@ -261,12 +261,26 @@ fn pinned_programs() -> Vec<(String, String)> {
             }
         }
     }
+    // another comment between the directive and the statement / field
+    for (i, t) in [
+        "-- stylua: ignore\n-- explanation\nlocal   m   =  { 1,0,\n   0,1 }\nlocal   after=1\n",
+        "-- stylua: ignore\n--[[ block ]]\nlocal   m   =  { 1,0 }\n",
+        "do\n    -- stylua: ignore\n    -- why\n    call  (  1,2  ) ;\n    other  ( )\nend\n",
+        "-- first\n-- stylua: ignore\n-- last\nx   =   1\n",
+        "--[[ stylua: ignore ]]\n-- c\nx   =   1\n",
+    ]
+    .iter()
+    .enumerate()
+    {
+        v.push((format!("comment-between:{i}"), t.to_string()));
+    }
     // table fields
     for (i, t) in [
         "local t = {\n    -- stylua: ignore\n    a   =   1,\n    b   =  2,\n}\n",
         "local t = {\n    a   =   1,\n    -- stylua: ignore\n    [ 'k' ]   =  { 1,2 },\n    c=3,\n}\n",
         "local t = { x   = 1,\n    -- stylua: ignore\n    y   =   2 }\n",
         "call({\n    -- stylua: ignore\n    f   =   function( a )   return a   end,\n    g = 1,\n})\n",
+        "local t = {\n    -- stylua: ignore\n    -- why\n    x   =    2,\n    y = 3,\n}\n",
     ]
     .iter()
     .enumerate()
@@ -289,7 +303,14 @@ fn check_table_field(ctx: &mut Ctx, id: &str, src: &str, c: &Cfg) {
     let lines: Vec<&str> = src.lines().collect();
     for (i, l) in lines.iter().enumerate() {
         if l.trim() == "-- stylua: ignore" && i + 1 < lines.len() {
-            let field = lines[i + 1].trim().trim_end_matches(['}', ' ']).trim_end_matches(',').trim();
+            let mut j = i + 1;
+            while j < lines.len() && lines[j].trim().starts_with("--") {
+                j += 1;
+            }
+            if j >= lines.len() {
+                continue;
+            }
+            let field = lines[j].trim().trim_end_matches(['}', ' ']).trim_end_matches(',').trim();
             ctx.count("table_fields_checked");
             if !out.contains(field) {
                 ctx.finding(
@@ -382,8 +403,20 @@ pub fn run_item(w: &W, ctx: &mut Ctx, mut i: usize) {
     let mut ins: Vec<(usize, usize, String)> = Vec::new();
     for k in chosen {
         let st = &infos[k];
-        let ls = stmts::line_start(&prog, st.start);
-        let indent = &prog[ls..st.start];
+        let mut ls = stmts::line_start(&prog, st.start);
+        let indent = prog[ls..st.start].to_string();
+        let indent = indent.as_str();
+        // sometimes put the directive above the statement's own leading comments
+        if rng.chance(1, 3) && st.lead_start < ls {
+            let l2 = stmts::line_start(&prog, st.lead_start);
+            if prog[l2..st.lead_start].trim().is_empty() {
+                // only when the leading trivia really starts a line (first comment line)
+                let first_comment = prog[st.lead_start..st.start].find("--").map(|p| st.lead_start + p);
+                if let Some(fc) = first_comment {
+                    ls = stmts::line_start(&prog, fc);
+                }
+            }
+        }
         let region = rng.chance(1, 3);
         if region {
             // close the region before the next statement of the same block when it starts a line
